@@ -146,6 +146,33 @@ theorem args_prescribed_scan_partial {m : String} {s : CtorSpec} (h : (m, "scan"
   exact construct_single_world "body" scanTypes "body" 0 env cbs w _
     (eval_scan env ops k hk hl hi) hc
 
+/-- What the code does with Scan's other attributes: the body's argument types depend only on the
+    operands and `num_scan_inputs` — `scan_input_axes`, `scan_input_directions`, `scan_output_axes`
+    and `scan_output_directions` are not looked at (for ONNX only `scan_input_axes` matters here:
+    directions do not change types, `scan_output_axes` only the operator's outputs). -/
+theorem scan_args_ignore_attributes {m : String} {s : CtorSpec} (h : (m, "scan", s) ∈ table)
+    (env env' : Env) (hl : env.lists = env'.lists)
+    (hi : env.ints "num_scan_inputs" = env'.ints "num_scan_inputs") :
+    s.subgraphs.map (fun p => evalList env p.2) = s.subgraphs.map (fun p => evalList env' p.2) := by
+  have hs' : s = scanSpec := by
+    have := spec_of_table h; simpa [accepted] using this
+  subst hs'
+  simp [scanSpec, scanTypes, evalList, evalSrc, scanSplit, evalIdx, hl, hi, evalTy, lookupVar, stripFirst]
+
+/-- Exactly when the code agrees with ONNX for arbitrary `scan_input_axes`: iff removing the
+    prescribed axis from every scan input gives the same shape as removing axis 0 (default axes,
+    unknown shapes, or dimensions that happen to coincide). -/
+theorem args_prescribed_scan_iff (env : Env) (ops : List TensorT) (k : Nat) (hk : k ≤ ops.length)
+    (hl : env.lists "initial_state_and_scan_inputs" = ops.map (fun t => some t.ty))
+    (hi : env.ints "num_scan_inputs" = (k : Int)) (axes : Option (List Int)) :
+    evalList env scanTypes = .ok (scanPresc ops k axes)
+      ↔ stripAxes (ops.drop (ops.length - k)) (axes.getD []) = stripAxes (ops.drop (ops.length - k)) [] := by
+  rw [eval_scan env ops k hk hl hi]
+  simp only [scanPresc, Except.ok.injEq, Option.getD_none]
+  constructor
+  · intro h; exact (List.append_cancel_left h).symm
+  · intro h; rw [h]
+
 /-- **Loop** (every shipped module), any number of carried values of any type (tensor, sequence,
     optional): the body receives `(iteration: int64, condition: bool, carried types unchanged)`, in
     this order. *Partial*: iteration number and condition are declared with shape `[1]`, where ONNX
